@@ -32,7 +32,7 @@ REGISTERED = {"invalid_request", "invalid_client", "invalid_grant", "unauthorize
 
 LONG = "A" * 5000
 HOSTILE = ["", LONG, '"', "\\", "a\x00b", "a\r\nb", "é", "你好", "%zz", "%", "a b", "a+b", "a&b=c", "a#b", "'", "<script>", "%FF%FE", "\x7f", " ", "\t", "a;b", "a,b",
-           "null", "0", "[]", "{}"]
+           "null", "0", "[]", "{}", "é" * 50, "ü" * 43 + "-._~", "w" * 42 + "ö", "٣" * 60, "A" * 129, "a" * 43 + "\n"]
 HOSTILE_NONSTR = [None]      # a parameter given several times reaches the core classes through datalist, not as a list value
 
 
@@ -88,7 +88,7 @@ def world2():
     w = H.World()
     w.store.jwt = dict(w.store.jwt)
     # a live code, token and device code to aim valid-looking requests at
-    w.step({"op": "authorize", "client": "c1", "redirect": "https://c1/cb", "scope": "a b", "challenge": None, "method": None, "user": 1, "approve": True})
+    w.step({"op": "authorize", "client": "c1", "redirect": "https://c1/cb", "scope": "a b", "challenge": H.s256(H.V43), "method": "S256", "user": 1, "approve": True})
     w.step({"op": "issue_password", "auth": ["c1", "client_secret_basic"], "user": 1, "scope": "a b"})
     w.step({"op": "device_authorize", "auth": ["c1", "client_secret_basic"], "client_id": "c1", "scope": "a"})
     return w
